@@ -3,7 +3,7 @@
    The final buffer of write_into is [rfc_image m ++ skipn n buf]: its first n bytes are a function of
    the configuration alone (not of buf), the bytes beyond n are those of buf, and a failing write
    returns buf itself. *)
-From RtcpV Require Import Proofs.Members.
+From RtcpV Require Import Proofs.Members Proofs.C06b.
 
 Theorem C17_packets_and_compounds :
   forall (m : member) (buf : bytes),
@@ -81,3 +81,32 @@ Check C17_sdes_item_builder :
     | Fuel => False
     end.
 Print Assumptions C17_sdes_item_builder.
+
+(* the five FCI builders implement the public writer trait themselves: the same statement for a bare FCI
+   builder ([fci_write_into] = write_into over its own calculate_size / write_into_unchecked) *)
+Theorem C17_fci_builder_as_a_writer :
+  forall (f : fci_cfg) (buf : bytes),
+    fci_wf f ->
+    match fci_calc f with
+    | Ok n =>
+        n mod 4 = 0 /\ length (rfc_fci f) = n /\
+        (n <= length buf -> fci_write_into f buf = (Ok n, rfc_fci f ++ skipn n buf)) /\
+        (length buf < n -> fci_write_into f buf = (Err (OutputTooSmall n), buf))
+    | Err e => fci_write_into f buf = (Err e, buf)
+    | Panic => False
+    | Fuel => False
+    end.
+Proof. exact fci_write_into_spec. Qed.
+Check C17_fci_builder_as_a_writer :
+  forall (f : fci_cfg) (buf : bytes),
+    fci_wf f ->
+    match fci_calc f with
+    | Ok n =>
+        n mod 4 = 0 /\ length (rfc_fci f) = n /\
+        (n <= length buf -> fci_write_into f buf = (Ok n, rfc_fci f ++ skipn n buf)) /\
+        (length buf < n -> fci_write_into f buf = (Err (OutputTooSmall n), buf))
+    | Err e => fci_write_into f buf = (Err e, buf)
+    | Panic => False
+    | Fuel => False
+    end.
+Print Assumptions C17_fci_builder_as_a_writer.
